@@ -12,6 +12,7 @@ Binding: for every enumerated case the harness builds the concrete payload of th
 import base64
 import json
 import os
+import re
 import struct
 import time
 
@@ -45,6 +46,8 @@ MANIFEST = dict(
 
 WORKERS = int(os.environ.get("VERIF_WORKERS", "0")) or min(vlib.NCPU, 8)
 BASE_MS = 1_700_000_000_000
+SHAPE_RANK = {"single": 0, "same_scope": 1, "sibling_scopes": 2, "sibling_resources": 3}
+MARKER = re.compile(r"^c\d+s\d+$")
 KEY = "pk"      # the probe attribute is named pk_<kind> so that a column never mixes value kinds
 
 
@@ -104,22 +107,64 @@ def time_value(e):
     return None
 
 
-def sibling(e):
-    s = dict(e)
-    s["eid"] = e["eid"] + "x"
-    s["body"] = "line of sibling of %s" % e["eid"]
-    s["sib"] = "sibling-%s" % e["eid"]
-    return s
+def batch_of(case, n, seed):
+    """The logical events of the request of a case.  shape "single": the case event alone.  Otherwise the case event sits
+    between two mates - distinct logical events of the same class (own marker, body, ids, probe value, time, and an attribute
+    key only_<eid> nobody else has) - in the same innermost container (same_scope), in sibling scopes / streams of one
+    resource (sibling_scopes: every scope has an attribute key sc_<eid> of its own) or in sibling resources
+    (sibling_resources: every resource has an attribute key rs_<eid> of its own).  Body lengths shrink, stay or grow
+    along the request depending on the case ordinal."""
+    e = logical(case, n, seed)
+    shape = case["pos"]
+    if shape == "single":
+        evs = [e]
+    else:
+        evs = [logical(case, n + 100000, seed), e, logical(case, n + 200000, seed)]
+        pads = {0: (40, 20, 0), 1: (0, 0, 0), 2: (0, 20, 40)}[n % 3]
+        for x, p in zip(evs, pads):
+            x["body"] += " " + "p" * p if p else ""
+    for j, x in enumerate(evs):
+        x["slot"] = j
+        x["case_event"] = x is e
+        x["res"] = j if shape == "sibling_resources" else 0
+        x["scope"] = j if shape == "sibling_scopes" else 0
+        x["own"] = {"only_" + x["eid"]: "o-" + x["eid"]}
+        x["own_scope"] = {"sc_" + x["eid"]: "s-" + x["eid"]} if shape == "sibling_scopes" else {}
+        x["own_res"] = {"rs_" + x["eid"]: "r-" + x["eid"]} if shape == "sibling_resources" else {}
+        x["mates"] = [y["eid"] for y in evs if y is not x]
+    return evs
+
+
+def case_event(evs):
+    return [x for x in evs if x["case_event"]][0]
+
+
+def probe_here(evs, level, r, s=None, metric=False):
+    """the case event's probe, if it sits at `level` of container (r[, s])"""
+    e = case_event(evs)
+    if e["level"] == level and e["res"] == r and (s is None or e["scope"] == s):
+        return {key_of(e): e["tag"] if metric else e["value"]}
+    return {}
+
+
+def containers(evs):
+    """[(res, [(scope, [events])])] in request order"""
+    out = []
+    for r in sorted(set(x["res"] for x in evs)):
+        scopes = []
+        for sc in sorted(set(x["scope"] for x in evs if x["res"] == r)):
+            scopes.append((sc, [x for x in evs if x["res"] == r and x["scope"] == sc]))
+        out.append((r, scopes))
+    return out
 
 
 # ------------------------------------------------------------------ encoders
 
 def flat_doc(e, with_time=True):
     d = {"eid": e["eid"], "message": e["body"], key_of(e): e["value"]}
+    d.update(e["own"])
     if e["ids"]:
         d["trace_id"], d["span_id"] = e["trace_id"], e["span_id"]
-    if "sib" in e:
-        d["sib_only"] = e["sib"]
     tv = time_value(e)
     if with_time and tv is not None:
         d["timestamp"] = tv
@@ -148,13 +193,14 @@ def b64hex(h):
     return base64.b64encode(bytes.fromhex(h)).decode()
 
 
-def events_of(e):
-    return [sibling(e), e] if e["pos"] == "second" else [e]
+def prom_samples(x):
+    """remote write: two samples per series (the event and one a second later with another value)"""
+    return [(x["ev_ms"], x["value"]), (x["ev_ms"] + 1000, x["value"] * 2 + 1)]
 
 
-def send(dr, proto, e):
-    """delivers the case; returns the list of handler answers"""
-    evs = events_of(e)
+def send(dr, proto, evs):
+    """delivers the request of a case; returns the list of handler answers"""
+    e = case_event(evs)
     if proto == "es_bulk":
         body = "".join(json.dumps({"index": {"_index": LOG_INDEX[proto]}}) + "\n" + json.dumps(flat_doc(x)) + "\n" for x in evs)
         return [dr.ok("proto_http", handler="es_bulk", org=0, body=body, content_type="application/json")]
@@ -171,116 +217,110 @@ def send(dr, proto, e):
             objs.append(json.dumps(o))
         return [dr.ok("proto_http", handler="splunk_hec", org=0, body="\n".join(objs), content_type="application/json")]
     if proto == "loki_json":
-        vals = []
-        for x in evs:
-            meta = {key_of(x): x["value"]}
-            if x["ids"]:
-                meta["trace_id"], meta["span_id"] = x["trace_id"], x["span_id"]
-            if "sib" in x:
-                meta["sib_only"] = x["sib"]
-            meta["eid"] = x["eid"]
-            vals.append([time_value(x), x["body"], meta])
-        body = {"streams": [{"stream": {"job": "c16", "stream_of": "st-" + e["eid"]}, "values": vals}]}
-        return [dr.ok("proto_http", handler="loki", org=0, body=json.dumps(body), content_type="application/json")]
+        streams = []
+        for r, scopes in containers(evs):
+            for sc, xs in scopes:
+                vals = []
+                for x in xs:
+                    meta = {key_of(x): x["value"], "eid": x["eid"]}
+                    meta.update(x["own"])
+                    if x["ids"]:
+                        meta["trace_id"], meta["span_id"] = x["trace_id"], x["span_id"]
+                    vals.append([time_value(x), x["body"], meta])
+                labels = {"job": "c16", "stream_of": "st-%s-%d" % (e["eid"], sc)}
+                for x in xs:
+                    labels.update(x["own_scope"])
+                streams.append({"stream": labels, "values": vals})
+        return [dr.ok("proto_http", handler="loki", org=0, body=json.dumps({"streams": streams}), content_type="application/json")]
     if proto == "loki_pb":
-        # protobuf push: labels string + entries(timestamp, line); the probe / ids travel as labels, one stream per event
+        # protobuf push: labels string + entries(timestamp, line); everything but the line travels as labels: one stream per event
         streams = []
         for x in evs:
             labels = {"eid": x["eid"], key_of(x): x["value"], "job": "c16"}
+            labels.update(x["own"])
+            labels.update(x["own_scope"])
             if x["ids"]:
                 labels["trace_id"], labels["span_id"] = x["trace_id"], x["span_id"]
-            if "sib" in x:
-                labels["sib_only"] = x["sib"]
             ls = "{" + ", ".join('%s="%s"' % (k, v) for k, v in labels.items()) + "}"
             ns = x["ev_ms"] * 1_000_000 + 456_789
             ts = time.strftime("%Y-%m-%dT%H:%M:%S", time.gmtime(ns // 10 ** 9)) + ".%09dZ" % (ns % 10 ** 9)
             streams.append({"labels": ls, "entries": [{"timestamp": ts, "line": x["body"]}]})
         return [dr.ok("proto_pb", handler="loki", org=0, json=json.dumps({"streams": streams}))]
-    if proto in ("otlp_logs", "otlp_traces"):
-        res = {"service.name": "svc-c16"}
-        scope = {}
-        rec_extra = {}
-        if e["level"] == "resource":
-            res[key_of(e)] = e["value"]
-        elif e["level"] == "scope":
-            scope[key_of(e)] = e["value"]
-        if proto == "otlp_logs":
-            res["siglensIndexName"] = LOG_INDEX[proto]
-            recs = []
-            for x in evs:
-                attrs = {"eid": x["eid"]}
-                if x["level"] == "record":
-                    attrs[key_of(x)] = x["value"]
-                if "sib" in x:
-                    attrs["sib_only"] = x["sib"]
-                r = {"severityNumber": 9, "severityText": "INFO", "body": anyv(x["body"]), "attributes": kvs(attrs)}
-                if x["unit"] == "ns":
-                    r["timeUnixNano"] = str(time_value(x))
-                    r["observedTimeUnixNano"] = str(time_value(x) + 1_000_000_000)
-                if x["ids"]:
-                    r["traceId"], r["spanId"] = b64hex(x["trace_id"]), b64hex(x["span_id"])
-                recs.append(r)
-            msg = {"resourceLogs": [{"resource": {"attributes": kvs(res)},
-                                     "scopeLogs": [{"scope": {"name": "scope-c16", "version": "1.2.3", "attributes": kvs(scope)}, "logRecords": recs}]}]}
-            return [dr.ok("proto_pb", handler="otlp_logs", org=0, json=json.dumps(msg), gzip=(len(e["eid"]) % 2 == 0))]
-        spans = []
-        for x in evs:
-            attrs = {"eid": x["eid"], "message": x["body"]}
-            if x["level"] == "record":
-                attrs[key_of(x)] = x["value"]
-            if "sib" in x:
-                attrs["sib_only"] = x["sib"]
-            ns = time_value(x)
-            spans.append({"traceId": b64hex(x["trace_id"]), "spanId": b64hex(x["span_id"]), "name": "op-" + x["eid"], "kind": 2,
-                          "startTimeUnixNano": str(ns), "endTimeUnixNano": str(ns + 5_000_000), "attributes": kvs(attrs), "status": {"code": 1}})
-        msg = {"resourceSpans": [{"resource": {"attributes": kvs(res)},
-                                  "scopeSpans": [{"scope": {"name": "scope-c16", "version": "1.2.3", "attributes": kvs(scope)}, "spans": spans}]}]}
-        return [dr.ok("proto_pb", handler="otlp_traces", org=0, json=json.dumps(msg))]
-    # ---- metrics
+    if proto in ("otlp_logs", "otlp_traces", "otlp_metrics"):
+        metric = proto == "otlp_metrics"
+        name = "c16_%s_%s" % (proto, e["eid"])
+        resources = []
+        for r, scopes in containers(evs):
+            res = {"service.name": "svc-c16"}
+            if proto == "otlp_logs":
+                res["siglensIndexName"] = LOG_INDEX[proto]
+            res.update(probe_here(evs, "resource", r, metric=metric))
+            for sc, xs in scopes:
+                for x in xs:
+                    res.update(x["own_res"])
+            sc_msgs = []
+            for sc, xs in scopes:
+                scope = dict(probe_here(evs, "scope", r, sc, metric=metric))
+                for x in xs:
+                    scope.update(x["own_scope"])
+                items = []
+                for x in xs:
+                    attrs = {"eid": x["eid"]}
+                    attrs.update(x["own"])
+                    if x["level"] == "record":
+                        attrs[key_of(x)] = x["tag"] if metric else x["value"]
+                    if proto == "otlp_logs":
+                        it = {"severityNumber": 9, "severityText": "INFO", "body": anyv(x["body"]), "attributes": kvs(attrs)}
+                        if x["unit"] == "ns":
+                            it["timeUnixNano"] = str(time_value(x))
+                            it["observedTimeUnixNano"] = str(time_value(x) + 1_000_000_000)
+                        if x["ids"]:
+                            it["traceId"], it["spanId"] = b64hex(x["trace_id"]), b64hex(x["span_id"])
+                    elif proto == "otlp_traces":
+                        attrs["message"] = x["body"]
+                        ns = time_value(x)
+                        it = {"traceId": b64hex(x["trace_id"]), "spanId": b64hex(x["span_id"]), "name": "op-" + x["eid"], "kind": 2,
+                              "startTimeUnixNano": str(ns), "endTimeUnixNano": str(ns + 5_000_000), "attributes": kvs(attrs), "status": {"code": 1}}
+                    else:
+                        it = {"attributes": kvs(attrs), "timeUnixNano": str(time_value(x))}
+                        if x["kind"] == "m_int":
+                            it["asInt"] = str(int(x["value"]))
+                        else:
+                            it["asDouble"] = x["value"]
+                    items.append(it)
+                sc_hdr = {"name": "scope-c16-%d" % sc, "version": "1.2.3", "attributes": kvs(scope)}
+                if proto == "otlp_logs":
+                    sc_msgs.append({"scope": sc_hdr, "logRecords": items})
+                elif proto == "otlp_traces":
+                    sc_msgs.append({"scope": sc_hdr, "spans": items})
+                else:
+                    m = {"name": name}
+                    if len(e["eid"]) % 2 == 0:
+                        m["gauge"] = {"dataPoints": items}
+                    else:
+                        m["sum"] = {"dataPoints": items, "aggregationTemporality": 2, "isMonotonic": False}
+                    sc_msgs.append({"scope": sc_hdr, "metrics": [m]})
+            key = {"otlp_logs": "scopeLogs", "otlp_traces": "scopeSpans", "otlp_metrics": "scopeMetrics"}[proto]
+            resources.append({"resource": {"attributes": kvs(res)}, key: sc_msgs})
+        top = {"otlp_logs": "resourceLogs", "otlp_traces": "resourceSpans", "otlp_metrics": "resourceMetrics"}[proto]
+        kw = {"gzip": len(e["eid"]) % 2 == 0} if proto == "otlp_logs" else {}
+        return [dr.ok("proto_pb", handler=proto, org=0, json=json.dumps({top: resources}), **kw)]
+    # ---- metrics over JSON / remote write
     name = "c16_%s_%s" % (proto, e["eid"])
     if proto == "otsdb":
         pts = []
         for x in evs:
             tags = {"eid": x["eid"], key_of(x): x["tag"]}
-            if "sib" in x:
-                tags["sib_only"] = "sib"
+            tags.update(x["own"])
             pts.append({"metric": name, "tags": tags, "timestamp": time_value(x), "value": x["value"]})
         return [dr.ok("proto_http", handler="otsdb", org=0, body=json.dumps(pts), content_type="application/json")]
     if proto == "prom_rw":
         tss = []
         for x in evs:
             labels = [{"name": "__name__", "value": name}, {"name": "eid", "value": x["eid"]}, {"name": key_of(x), "value": x["tag"]}]
-            if "sib" in x:
-                labels.append({"name": "sib_only", "value": "sib"})
-            tss.append({"labels": labels, "samples": [{"value": x["value"], "timestamp": time_value(x)}]})
+            labels += [{"name": k, "value": v} for k, v in x["own"].items()]
+            tss.append({"labels": labels, "samples": [{"value": v, "timestamp": t} for t, v in prom_samples(x)]})
         return [dr.ok("proto_promrw", org=0, json=json.dumps({"timeseries": tss}))]
-    if proto == "otlp_metrics":
-        res, scope = {"service.name": "svc-c16"}, {}
-        if e["level"] == "resource":
-            res[key_of(e)] = e["tag"]
-        elif e["level"] == "scope":
-            scope[key_of(e)] = e["tag"]
-        dps = []
-        for x in evs:
-            attrs = {"eid": x["eid"]}
-            if x["level"] == "record":
-                attrs[key_of(x)] = x["tag"]
-            if "sib" in x:
-                attrs["sib_only"] = "sib"
-            dp = {"attributes": kvs(attrs), "timeUnixNano": str(time_value(x))}
-            if x["kind"] == "m_int":
-                dp["asInt"] = str(int(x["value"]))
-            else:
-                dp["asDouble"] = x["value"]
-            dps.append(dp)
-        metric = {"name": name}
-        if len(e["eid"]) % 2 == 0:
-            metric["gauge"] = {"dataPoints": dps}
-        else:
-            metric["sum"] = {"dataPoints": dps, "aggregationTemporality": 2, "isMonotonic": False}
-        msg = {"resourceMetrics": [{"resource": {"attributes": kvs(res)},
-                                    "scopeMetrics": [{"scope": {"name": "scope-c16", "attributes": kvs(scope)}, "metrics": [metric]}]}]}
-        return [dr.ok("proto_pb", handler="otlp_metrics", org=0, json=json.dumps(msg))]
     raise vlib.Infra("unknown protocol %s" % proto)
 
 
@@ -321,32 +361,46 @@ def same_value(kind, want, cols, key):
     return False
 
 
+def carries(name, key):
+    return name == key or name.endswith("." + key)
+
+
 def judge_log(proto, e, recs, window):
+    """e: one logical event of a request (the case event or one of its mates); every stored event is compared with ITS
+    logical event"""
     out = []
+    who = "" if e["case_event"] else " (mate %d of the case event, same request)" % e["slot"]
     mine = [r for r in recs if any(v == e["eid"] for v in r.values())]
     if not mine:
-        return [("C16:%s:event-lost" % proto, "no stored event carries marker %s" % e["eid"])]
+        return [("C16:%s:event-lost" % proto, "no stored event carries marker %s%s" % (e["eid"], who))]
     if len(mine) > 1:
-        out.append(("C16:%s:duplicated" % proto, "%d stored events carry marker %s" % (len(mine), e["eid"])))
+        out.append(("C16:%s:duplicated" % proto, "%d stored events carry marker %s%s" % (len(mine), e["eid"], who)))
     r = mine[0]
-    # probe
+    # probe: the case event's at its level; a mate's own one at record level
     KEYE = key_of(e)
-    cols = find_cols(r, KEYE)
-    if not cols:
-        out.append(("C16:%s:attribute-lost:%s" % (proto, e["level"]), "%s-level attribute %r (kind %s) is not stored: columns %s" % (
-            e["level"], KEYE, e["kind"], sorted(r))))
-    elif not same_value(e["kind"], e["value"], cols, KEYE):
-        out.append(("C16:%s:value-changed:%s" % (proto, e["kind"]), "%s-level %r sent as %r, stored as %r" % (e["level"], KEYE, e["value"], cols)))
+    if e["case_event"] or e["level"] == "record":
+        cols = find_cols(r, KEYE)
+        if not cols:
+            out.append(("C16:%s:attribute-lost:%s" % (proto, e["level"]), "%s-level attribute %r (kind %s) is not stored%s: columns %s" % (
+                e["level"], KEYE, e["kind"], who, sorted(r))))
+        elif not same_value(e["kind"], e["value"], cols, KEYE):
+            out.append(("C16:%s:value-changed:%s" % (proto, e["kind"]), "%s-level %r sent as %r, stored as %r%s" % (e["level"], KEYE, e["value"], cols, who)))
+    # the attributes only this event / its scope / its resource has
+    for level, d in (("record", e["own"]), ("scope", e["own_scope"]), ("resource", e["own_res"])):
+        for k, v in d.items():
+            if not any(carries(c, k) and x == v for c, x in r.items()):
+                out.append(("C16:%s:attribute-lost:%s" % (proto, level), "%s-level attribute %s=%r is not stored%s: columns %s" % (level, k, v, who, sorted(r))))
+    foreign = sorted(c for c in r if any(carries(c, p + m) for m in e["mates"] for p in ("only_", "sc_", "rs_")))
+    if foreign:
+        out.append(("C16:%s:contaminated-by-sibling" % proto, "the stored event %s carries attribute(s) %s that only OTHER events / scopes / resources of the same "
+                    "request have" % (e["eid"], foreign)))
     if e["ids"]:
         vals = set(str(v) for v in r.values())
         if e["trace_id"] not in vals or e["span_id"] not in vals:
-            out.append(("C16:%s:ids-changed" % proto, "trace/span id %s/%s not stored verbatim: %s" % (
-                e["trace_id"], e["span_id"], {c: v for c, v in r.items() if "trace" in c or "span" in c})))
+            out.append(("C16:%s:ids-changed" % proto, "trace/span id %s/%s not stored verbatim%s: %s" % (
+                e["trace_id"], e["span_id"], who, {c: v for c, v in r.items() if "trace" in c or "span" in c})))
     if not any(v == e["body"] for v in r.values()):
-        out.append(("C16:%s:body-lost" % proto, "body/message %r not stored: %s" % (e["body"], r)))
-    if e["pos"] == "second" and any(("sib_only" in c) or (isinstance(v, str) and v == "sibling-" + e["eid"]) for c, v in r.items()):
-        out.append(("C16:%s:contaminated-by-sibling" % proto, "the event carries attribute sib_only which only the event before it in the same request had: %s" % (
-            {c: v for c, v in r.items() if "sib_only" in c})))
+        out.append(("C16:%s:body-lost" % proto, "body/message %r not stored%s: %s" % (e["body"], who, {c: v for c, v in r.items() if c in ("body", "line", "message", "event.message")})))
     ts = r.get("timestamp")
     if e["want_ms"] is None:
         if not (isinstance(ts, int) and window[0] - 5 <= ts <= window[1] + 5):
@@ -358,40 +412,83 @@ def judge_log(proto, e, recs, window):
             out.append(("C16:%s:time:arrival-used-although-event-has-time" % proto, "event time %s (%s: %r) but stored at arrival time %s" % (
                 e["want_ms"], e["unit"], time_value(e), ts)))
         else:
-            out.append(("C16:%s:time:wrong:%s" % (proto, e["unit"]), "event time %s (%s: %r) stored as %s" % (e["want_ms"], e["unit"], time_value(e), ts)))
+            out.append(("C16:%s:time:wrong:%s" % (proto, e["unit"]), "event time %s (%s: %r) stored as %s%s" % (e["want_ms"], e["unit"], time_value(e), ts, who)))
     return out
 
 
-def judge_metric(proto, e, series):
+def norm_key(k):
+    return re.sub(r"[^a-zA-Z0-9_]", "_", k)
+
+
+def parse_gid(gid):
+    """'name{k:v,k:v,' -> {k: v}"""
+    body = gid[gid.index("{") + 1:] if "{" in gid else ""
+    tags = {}
+    for part in body.split(","):
+        if ":" in part:
+            k, v = part.split(":", 1)
+            tags[k] = v
+    return tags
+
+
+def expected_tags(proto, e, evs):
+    """series identity = exactly the event's own attributes (+ those of its scope and resource for OTLP)"""
+    t = {"eid": e["eid"]}
+    t.update(e["own"])
+    if proto == "otlp_metrics":
+        t["service.name"] = "svc-c16"
+        t.update(e["own_scope"])
+        t.update(e["own_res"])
+        t.update(probe_here(evs, "resource", e["res"], metric=True))
+        t.update(probe_here(evs, "scope", e["res"], e["scope"], metric=True))
+        if e["level"] == "record":
+            t[key_of(e)] = e["tag"]
+    else:
+        t[key_of(e)] = e["tag"]
+    return {norm_key(k): v for k, v in t.items()}
+
+
+def judge_metric(proto, e, evs, series):
     """series: {gid: [[ts, hexbits, float]...]} of the metric named after the case"""
     out = []
-    mine = {g: p for g, p in series.items() if ("eid:%s," % e["eid"]) in g}
+    who = "" if e["case_event"] else " (mate %d of the case event, same request)" % e["slot"]
+    mine = {g: p for g, p in series.items() if parse_gid(g).get("eid") == e["eid"]}
     if not mine:
-        return [("C16:%s:event-lost" % proto, "no series with tag eid=%s; series: %s" % (e["eid"], sorted(series)))]
+        return [("C16:%s:event-lost" % proto, "no series with tag eid=%s%s; series: %s" % (e["eid"], who, sorted(series)))]
     if len(mine) > 1:
         out.append(("C16:%s:duplicated" % proto, "several series carry eid=%s: %s" % (e["eid"], sorted(mine))))
     gid, pts = sorted(mine.items())[0]
-    KEYE = key_of(e)
-    if ("%s:%s," % (KEYE, e["tag"])) not in gid:
-        if (KEYE + ":") in gid:
-            out.append(("C16:%s:value-changed:tag:%s" % (proto, e["kind"]), "tag %s sent as %r, series is %r" % (KEYE, e["tag"], gid)))
-        else:
-            out.append(("C16:%s:attribute-lost:%s" % (proto, e["level"]), "%s-level attribute %s=%r is not a tag of the stored series %r" % (e["level"], KEYE, e["tag"], gid)))
-    if e["pos"] == "second" and "sib_only" in gid:
-        out.append(("C16:%s:contaminated-by-sibling" % proto, "series %r carries the sibling's tag" % gid))
-    want_ts = e["want_ms"] // 1000
-    if len(pts) != 1:
-        out.append(("C16:%s:duplicated" % proto, "%d datapoints stored for one sent: %s" % (len(pts), pts)))
-    ts, bits, val = pts[0]
-    if ts != want_ts:
-        out.append(("C16:%s:time:wrong:%s" % (proto, e["unit"]), "datapoint time %s (%s: %r) stored at second %s" % (want_ts, e["unit"], time_value(e), ts)))
-    if bits != f2hex(e["value"]):
-        out.append(("C16:%s:value-changed:%s" % (proto, e["kind"]), "datapoint value %r stored as %r" % (e["value"], val)))
+    got, want = parse_gid(gid), expected_tags(proto, e, evs)
+    pk = norm_key(key_of(e))
+    for k in sorted(set(want) - set(got)):
+        level = "scope" if k.startswith("sc_") else "resource" if k.startswith("rs_") or k == "service_name" else (e["level"] if k == pk else "record")
+        out.append(("C16:%s:attribute-lost:%s" % (proto, level), "%s-level attribute %s=%r is not a tag of the stored series %r%s" % (level, k, want[k], gid, who)))
+    for k in sorted(set(want) & set(got)):
+        if got[k] != want[k]:
+            out.append(("C16:%s:value-changed:tag:%s" % (proto, e["kind"] if k == pk else k.split("_")[0]), "tag %s sent as %r, series is %r%s" % (k, want[k], gid, who)))
+    extra = sorted(set(got) - set(want))
+    if extra:
+        mates_keys = [k for k in extra if any(k in (p + m) for m in e["mates"] for p in ("only_", "sc_", "rs_"))]
+        out.append(("C16:%s:contaminated-by-sibling" % proto if mates_keys else "C16:%s:series-identity:foreign-tag" % proto,
+                    "the series of %s carries tag(s) %s the datapoint never had (sent: %s; stored series %r)%s" % (e["eid"], extra, sorted(want), gid, who)))
+    if proto == "prom_rw":
+        want_pts = [(t // 1000, f2hex(v), v) for t, v in prom_samples(e)]
+    else:
+        want_pts = [(e["want_ms"] // 1000, f2hex(e["value"]), e["value"])]
+    if len(pts) != len(want_pts):
+        out.append(("C16:%s:duplicated" % proto if len(pts) > len(want_pts) else "C16:%s:sample-lost" % proto,
+                    "%d datapoints stored for %d sent%s: %s" % (len(pts), len(want_pts), who, pts)))
+    for (wts, wbits, wv), p in zip(want_pts, pts):
+        ts, bits, val = p
+        if ts != wts:
+            out.append(("C16:%s:time:wrong:%s" % (proto, e["unit"]), "datapoint time %s (%s: %r) stored at second %s%s" % (wts, e["unit"], time_value(e), ts, who)))
+        if bits != wbits:
+            out.append(("C16:%s:value-changed:%s" % (proto, e["kind"]), "datapoint value %r stored as %r%s" % (wv, val, who)))
     return out
 
 
 def run_protocol(binary, proto, cases, seed):
-    """all cases of one protocol on one engine.  Returns [(case, logical event, [(key, text)])] and the stored values."""
+    """all cases of one protocol on one engine.  Returns [(case, logical case event, [(key, text)], stored)]."""
     d = vlib.scratch("c16")
     dr = None
     res = []
@@ -400,38 +497,60 @@ def run_protocol(binary, proto, cases, seed):
         dr.ok("init", dir=d)
         sent = []
         for (n, c) in cases:
-            e = logical(c, n, seed)
+            evs = batch_of(c, n, seed)
             t0 = int(time.time() * 1000)
-            answers = send(dr, proto, e)
+            answers = send(dr, proto, evs)
             t1 = int(time.time() * 1000)
             bad = [a for a in answers if a.get("status") not in (200, 201)]
-            sent.append((n, c, e, (t0, t1), bad))
+            sent.append((n, c, evs, (t0, t1), bad))
         if proto in LOG_INDEX:
             dr.ok("flush")
-            q = dr.ok("query", org=0, index=LOG_INDEX[proto], text="*", start=1, end=4_102_444_800_000, size=20000)
+            q = dr.ok("query", org=0, index=LOG_INDEX[proto], text="*", start=1, end=4_102_444_800_000, size=50000)
             if "qerr" in q or q.get("hang"):
                 raise vlib.Infra("C16 search failed for %s: %s" % (proto, q))
             recs = (q.get("hits") or {}).get("records") or []
-            for (n, c, e, win, bad) in sent:
+            by_marker = {}
+            for r in recs:
+                for v in r.values():
+                    if isinstance(v, str) and MARKER.match(v):
+                        by_marker.setdefault(v, []).append(r)
+            for (n, c, evs, win, bad) in sent:
+                e = case_event(evs)
                 if bad:
                     res.append((c, e, [("C16:%s:rejected:%s" % (proto, c["kind"] if c["kind"] not in ("str",) else "time-" + c["time"]),
                                         "handler answered %s for an event the protocol can express" % json.dumps(bad[0])[:300])], None))
                     continue
-                v = judge_log(proto, e, recs, win)
-                mine = [r for r in recs if any(x == e["eid"] for x in r.values())]
-                res.append((c, e, v, mine[0] if mine else None))
+                v = []
+                for x in evs:
+                    v += judge_log(proto, x, by_marker.get(x["eid"], []), win)
+                res.append((c, e, v, [by_marker.get(x["eid"], [None])[0] for x in evs]))
         else:
-            for (n, c, e, win, bad) in sent:
+            for (n, c, evs, win, bad) in sent:
+                e = case_event(evs)
                 if bad:
                     res.append((c, e, [("C16:%s:rejected:%s" % (proto, c["kind"]), "handler answered %s" % json.dumps(bad[0])[:300])], None))
                     continue
                 name = "c16_%s_%s" % (proto, e["eid"])
-                sec = e["want_ms"] // 1000
-                r = dr.ok("mquery", org=0, promql=name, start=sec - 5, end=sec + 5, step=1)
-                if "qerr" in r:
-                    res.append((c, e, [("C16:%s:event-lost" % proto, "selector %s failed: %s" % (name, r["qerr"]))], None))
+                lo = min(x["want_ms"] for x in evs) // 1000
+                hi = max(x["want_ms"] for x in evs) // 1000
+                series = {}
+                err = None
+                for x in evs:      # the events of a request are days apart: one narrow selector query per event
+                    sec = x["want_ms"] // 1000
+                    r = dr.ok("mquery", org=0, promql=name, start=sec - 5, end=sec + 5, step=1)
+                    if "qerr" in r:
+                        err = r["qerr"]
+                        break
+                    for g, p in (r.get("series") or {}).items():
+                        series.setdefault(g, [])
+                        series[g] += [q_ for q_ in p if q_ not in series[g]]
+                if err is not None:
+                    res.append((c, e, [("C16:%s:event-lost" % proto, "selector %s failed: %s" % (name, err))], None))
                     continue
-                res.append((c, e, judge_metric(proto, e, r.get("series") or {}), r.get("series")))
+                v = []
+                for x in evs:
+                    v += judge_metric(proto, x, evs, series)
+                res.append((c, e, v, series))
     except vlib.DriverDead as ex:
         if ex.kind == "hang" or ex.rc in (-15, -9, -2):
             raise vlib.Infra("engine did not answer in time or was killed from outside (machine load / cleanup?): %s" % ex)
@@ -477,14 +596,14 @@ def run(chk):
                 if key in seen:
                     continue
                 seen.add(key)
-                size = (0 if c.get("pos") == "single" else 1, 0 if not c.get("ids") else 1, 0 if c.get("kind") in ("str", "m_frac") else 1)
+                size = (SHAPE_RANK.get(c.get("pos"), 9), 0 if not c.get("ids") else 1, 0 if c.get("kind") in ("str", "m_frac") else 1)
                 f = found.get(key)
                 if f is None or size < f["size"]:
                     found[key] = {"size": size, "text": text, "n": (f["n"] if f else 0) + 1,
                                   "rp": {"case": c, "seed": s, "ordinal": cases.index(c) if c in cases else -1, "logical": e, "stored": stored}}
                 else:
                     f["n"] += 1
-            if len(chk.cov["samples"]) < 4 and stored is not None and c.get("time") not in ("none",) and c.get("pos") == "second":
+            if len(chk.cov["samples"]) < 4 and stored is not None and c.get("time") not in ("none",) and c.get("pos") == "sibling_scopes":
                 chk.sample({"case": c, "stored": stored if not isinstance(stored, dict) or len(json.dumps(stored)) < 1500 else "(large)", "violations": [k for k, _ in viol]})
     # cross-protocol agreement: a logical value kind that some protocol stores intact and another does not
     cross = {}
